@@ -178,6 +178,14 @@ pub fn for_each_corpus_type(r: &mut Rng, n: usize, out: &mut Vec<String>, dynami
     crate::generated_schema::generated_schema_lines(r, n, out, dynamic);
 }
 
+/// the derived corpus types as `Key::for_path::<T>` entries (C16)
+pub fn corpus_key_entries() -> Vec<crate::ops_schema::KeyEntry> {
+    crate::key_entries!(
+        UnitS, NewS, TupS, Tup0, Named0, Point, GenS<u8, String>, GenS<Point, Option<u16>>, Life<'static>, Nested, AllKinds, OneVar,
+        GenE<u8>, GenE<Point>, GenE<GenE<String>>, r#RawName, RawFields, RawVariants, Discr, DiscrData, Vec<AllKinds>, Option<Nested>, BTreeMap<String, AllKinds>,
+    )
+}
+
 // ------------------------------------------------------------------ real serde-derive / std decode glue (C01)
 /// decode `bytes ++ [0xAA]` as the concrete type through every decode entry point and re-encode
 pub type RealFn = (fn(&[u8]) -> Result<Vec<u8>, String>, fn(&mut Rng, usize, &mut Vec<String>, usize));
